@@ -435,6 +435,10 @@ def np_argmin(eng, args, kw):
 
 def np_isclose(eng, args, kw):
     a, b = args[0], args[1]
+    if isinstance(a, (tuple, list)) or (isinstance(a, SList) and a.is_concrete()):
+        a = NDArr(to_nd(eng, a))
+    if isinstance(b, (tuple, list)) or (isinstance(b, SList) and b.is_concrete()):
+        b = NDArr(to_nd(eng, b))
     rtol = kw.get('rtol', args[2] if len(args) > 2 else Fraction(1, 100000))
     atol = kw.get('atol', args[3] if len(args) > 3 else Fraction(1, 100000000))
     if isinstance(a, NDArr) or isinstance(b, NDArr):
@@ -454,6 +458,34 @@ def np_meshgrid(eng, args, kw):
     AXIOMS_USED.add('np.meshgrid(x, y) (default indexing xy): X[i][j] = x[j], Y[i][j] = y[i], shape (len y, len x)')
     return (NDArr([[x.data[j] for j in range(len(x.data))] for i in range(len(y.data))]),
             NDArr([[y.data[i] for j in range(len(x.data))] for i in range(len(y.data))]))
+
+
+def np_unique(eng, args, kw):
+    x = args[0]
+    if kw or not isinstance(x, NDArr):
+        raise EngineError('np.unique form')
+    AXIOMS_USED.add('np.unique(small array) = sorted distinct values (comparisons decided by forking)')
+    out = []
+    for v in flat(x.data):
+        pos = len(out)
+        dup = False
+        for k, w in enumerate(out):
+            if eng.decide(r_cmp('==', v, w)):
+                dup = True
+                break
+            if eng.decide(r_cmp('<', v, w)):
+                pos = k
+                break
+        if not dup:
+            out.insert(pos, v)
+    return NDArr(out)
+
+
+def np_allclose(eng, args, kw):
+    r = np_isclose(eng, args, kw)
+    if isinstance(r, NDArr):
+        return b_and(*[eng.truth(v) for v in flat(r.data)])
+    return r
 
 
 def np_hypot(eng, args, kw):
@@ -524,6 +556,8 @@ NP = Namespace('np', {
     'arange': Builtin('np.arange', np_arange), 'dot': Builtin('np.dot', np_dot),
     'logical_not': Builtin('np.logical_not', np_logical_not),
     'hypot': Builtin('np.hypot', np_hypot),
+    'unique': Builtin('np.unique', np_unique),
+    'allclose': Builtin('np.allclose', np_allclose),
     'meshgrid': Builtin('np.meshgrid', np_meshgrid),
     'repeat': Builtin('np.repeat', np_repeat),
     'logical_and': Builtin('np.logical_and', np_logical_and),
@@ -894,13 +928,36 @@ def b_reversed(eng, args, kw):
     return SSeq(n, lambda i, seq=seq, n=n: seq.at(r_sub(r_sub(n, 1), i)), 'reversed(%s)' % seq.label)
 
 
+def _quantified(eng, seq, exists):
+    """any()/all() over a symbolic sequence of truth values: a fresh Boolean r with
+         r  => some index in range has a true element (witness index),   not r => every element is false   (any)
+       and dually for all()"""
+    r = z3.Bool(fresh_name('any' if exists else 'all'))
+    j = z3.Int(fresh_name('j'))
+    wit = z3.Int(fresh_name('witness'))
+    n = term(seq.length)
+    at_j = bterm(eng.truth(seq.at(SV(j, 'int'))))
+    at_w = bterm(eng.truth(seq.at(SV(wit, 'int'))))
+    if exists:
+        eng.pc.append(z3.Implies(r, z3.And(wit >= 0, wit < n, at_w)))
+        eng.pc.append(z3.Implies(z3.Not(r), z3.ForAll([j], z3.Implies(z3.And(j >= 0, j < n), z3.Not(at_j)))))
+    else:
+        eng.pc.append(z3.Implies(z3.Not(r), z3.And(wit >= 0, wit < n, z3.Not(at_w))))
+        eng.pc.append(z3.Implies(r, z3.ForAll([j], z3.Implies(z3.And(j >= 0, j < n), at_j))))
+    return SV(r, 'bool')
+
+
 def b_any(eng, args, kw):
-    xs = eng.iter_concrete(args[0])
+    xs = eng.concrete_items(args[0])
+    if xs is None:
+        return _quantified(eng, eng.as_seq(args[0]), True)
     return b_or(*[eng.truth(x) for x in xs]) if xs else False
 
 
 def b_all(eng, args, kw):
-    xs = eng.iter_concrete(args[0])
+    xs = eng.concrete_items(args[0])
+    if xs is None:
+        return _quantified(eng, eng.as_seq(args[0]), False)
     return b_and(*[eng.truth(x) for x in xs]) if xs else True
 
 
